@@ -51,6 +51,12 @@ def _fxok(x):
     return {"neg": bool(x < 0), "hi": hi, "lo": lo, "ok": True}
 
 
+def _chrom_class(name):
+    """class of a chromosome by its name (an encoding of the name: the specification cannot look into strings)"""
+    core = name[3:] if name.lower().startswith("chr") else name
+    return "auto" if core.isdigit() else "x" if core.upper() == "X" else "y" if core.upper() == "Y" else "other"
+
+
 def _cna(bins, names):
     from cnvlib.cnary import CopyNumArray as CNA
     rows = [(names[b[0] - 1], b[1], b[2], b[3], b[5] / LU, b[6] / DU, b[4] / WU) for b in bins]
@@ -158,7 +164,8 @@ def execute(inp):
     from skgenome import GenomicArray
     op, names, bins = inp["op"], inp["names"], inp["bins"]
     rec = dict(inp)
-    rec.update(surv=[False] * len(bins), sd9=0, out=[], err="", arms=[], kcalls=0)
+    rec.update(surv=[False] * len(bins), sd9=0, sdseen=False, out=[], err="", arms=[], kcalls=0,
+               cls=[_chrom_class(n) for n in names])
     for b in bins:
         if "," in b[3]:
             raise MachineryError("gene names in C03 inputs must not contain commas (the gene field is split at commas)")
@@ -227,6 +234,7 @@ def execute(inp):
                 if k is None or rec["surv"][k]:
                     raise MachineryError(f"kernel received a row that is not exactly one input bin: {c}:{s}-{e}")
                 rec["surv"][k] = True
+        rec["sdseen"] = recd.sd is not None
         if recd.sd is not None and recd.sd == recd.sd and recd.sd > 0:
             rec["sd9"] = max(1, min(2**31 - 1, int(round(recd.sd * 1e9))))
     finally:
@@ -313,10 +321,10 @@ def _gen_chrom(rng, c, n, opts):
             l = -15 * LU - 1                       # one grid step below: dropped with skip_low
         elif u < opts.get("p_w0", 0.04) + 0.10:
             d = 0                                  # depth 0 with an ordinary log2: dropped with skip_low
-        elif u < opts.get("p_w0", 0.04) + 0.12 and n > 50:
-            l += rng.choice([-1, 1]) * 8 * LU      # gross outlier
         bins.append([c, pos, pos + ln, gene, w, l, d])
         pos += ln
+    for k in opts.get("outliers", []):             # gross outliers (dropped by drop_outliers when > 50 bins)
+        bins[k][5] += rng.choice([-1, 1]) * 8 * LU
     for k in opts.get("edge", []):                 # filtered edge bins
         how = rng.choice(["w0", "null", "wlow"])
         b = bins[k]
@@ -373,6 +381,12 @@ def _gen_table(rng, big=False):
             g = sorted(opts["gaps"])[0]
             edge += [k for k in (g - 2, g - 1) if 0 <= k < n]
         opts["edge"] = sorted(set(edge))
+        if n > 50 and rng.random() < 0.7:          # one or two gross outliers: interior, at a chromosome / arm edge
+            cand = [0, n - 1, rng.randrange(n), rng.randrange(n)]
+            if opts["gaps"]:
+                g = sorted(opts["gaps"])[0]
+                cand += [g - 2, g - 1]
+            opts["outliers"] = sorted({k for k in rng.sample(cand, rng.choice([1, 2])) if 0 <= k < n})
         bins += _gen_chrom(rng, c, n, opts)
     return names, bins
 
@@ -381,7 +395,7 @@ def _configs(rng, n_cfg, procs_choices):
     cfgs = []
     for m in METHODS:
         for _ in range(n_cfg):
-            cfgs.append({"op": m, "skiplow": rng.random() < 0.5, "skipout": rng.choice([0, 10]),
+            cfgs.append({"op": m, "skiplow": rng.random() < 0.5, "skipout": rng.choice([0, 0, 10, 10, 3, 1]),
                          "minw": rng.choice([0, 0, 16, 17, 32]), "procs": rng.choice(procs_choices)})
     return cfgs
 
@@ -405,7 +419,7 @@ def structured_inputs():
         for k in range(1, n + 1):
             pos += (gaps or {}).get(k, 0)
             l = 256 if k % 7 < 3 else -128
-            b = [c, pos, pos + 100, f"{name}{k // 4}", 0 if k in w0 else 64, l, 64 + k % 5]
+            b = [c, pos, pos + 100, f"{name}{k // 4}", 0 if k in w0 else (64, 48, 32)[k % 3], l, 64 + 16 * (k % 5)]
             if k in null:
                 b[5], b[6] = -20 * LU, 0
             bins.append(b)
@@ -436,6 +450,13 @@ def structured_inputs():
     add(chrom(1, 30) + chrom(2, 6, w0=range(1, 7)) + chrom(3, 8), ["chr1", "chr2", "chrX"])
     add(chrom(1, 30) + chrom(2, 8) + chrom(3, 6, w0=range(1, 7)), ["chr1", "chr2", "chrY"])
     add(chrom(1, 6, w0=range(1, 7)), ["chr1"])
+    # the outlier filter (skip_outliers = factor; 10 is the default, 3 / 1 actually drop an isolated spike / edge bins)
+    spiky = chrom(1, 130, gaps={70: 3000000})
+    for k in (0, 30, 68, 69, 100, 129):
+        spiky[k][5] += 8 * LU
+    for f in (10, 3, 1):
+        add(spiky, ["chr1"], skipout=f)
+        add(spiky + chrom(2, 51) + chrom(3, 50), ["chr1", "chr2", "chrX"], skipout=f, skiplow=True)
     # a filtered arm large enough to be split again by by_arm() inside segment_haar / segment_hmm
     add(chrom(1, 400, gaps={200: 3000000, 300: 150000}, w0=(1, 199, 200, 400)), ["chr1"])
     add(chrom(1, 230, gaps={115: 200000}, w0=tuple(range(52, 64))), ["chr1"])
@@ -595,7 +616,7 @@ def run(ctx: Ctx):
         sc["names"] = names2
         cfg = ctx.cfg(f"mc-{k}", spec="Spec", invariants=["DesignOK", "DesignNoStretchOnlyAtEdges"],
                       constants=_mc_constants(sc))
-        r, states = ctx.mc("MC_Segments", cfg, timeout=3000)
+        r, states = ctx.mc("MC_Segments", cfg, timeout=3000, coverage=False)   # -coverage makes this spec ~100x slower
         inputs = _inputs_from_states(states, sc)
         if len(inputs) * 2 != r.distinct:
             raise MachineryError(f"dump replay: {len(inputs)} ret states parsed, TLC reports {r.distinct} states")
@@ -607,7 +628,7 @@ def run(ctx: Ctx):
     sc["name"] = (f"by_arm: 1 chromosome <= {arm_scope['armbins']} bins, every gap pattern over {arm_scope['armgaps']}, "
                   f"min_gap_size 10, min_arm_bins in {arm_scope['armmabs']}")
     cfg = ctx.cfg("mc-arm", spec="SpecArm", invariants=["DesignOK"], constants=_mc_constants(sc))
-    r, states = ctx.mc("MC_Segments", cfg, timeout=3000)
+    r, states = ctx.mc("MC_Segments", cfg, timeout=3000, coverage=False)   # -coverage makes this spec ~100x slower
     inputs = []
     for st in states:
         if st["ph"] == "ret":
@@ -646,7 +667,7 @@ def run(ctx: Ctx):
     for rec in (all_records[0], all_records[len(all_records) // 5], rnd[0]):
         ctx.sample(rec)
     ctx.notes["not_run"] = "methods cbs and flasso need R (Rscript is not installed): not run"
-    ctx.notes["hmm_out_of_scope"] = sum(1 for r in rnd if r["op"] in HMM and not r["sd9"])
+    ctx.notes["hmm_zero_spread_records"] = sum(1 for r in rnd if r["op"] in HMM and r["sdseen"] and not r["sd9"])
     ctx.validate(TRACE, all_records, batch=4000, timeout=3000)
     ctx.trusted_base = ["TLC 1.8 evaluation of spec/Segments.tla (Num.tla limb arithmetic)",
                         "harness encoding: dyadic grids (weight/64, log2/1024, depth/64) -> floats by exact division; "
